@@ -6,6 +6,7 @@ import StepModel.P21.FloatRead
 import StepModel.P21.FloatSeventeen
 import StepModel.P21.FloatNearest
 import StepModel.P21.FloatFifteen
+import StepModel.P21.FloatDigits
 import StepModel.P21.AggrLemmas
 import StepModel.P21.RtsLemmas
 import StepModel.Generated.P21RWGen
@@ -1168,6 +1169,87 @@ theorem C09_writer_real_fifteen_digit_decimals_survive (cfg : LexCfg) (lookup : 
       .ok ⟨.null, .real bits, { left := sp.reverse ++ (attrWrite dblOps .real (.real bits)).reverse, right := d :: rest }⟩ :=
   C09_writer_real_reads_back_arith cfg lookup nullable bits hlt hfin
     (fun _ => fifteen_digits_survive neg M E hM hM15 bits hlt h hnorm hfin) hnn hbuf sp rest d hsp hd
+
+/-- **How many decimal digits survive, per significand** (proof-only stretch; subnormals included).  A decimal of at most `p`
+    significant digits (`M < 10^p`) that the model's `strtod` converts to the finite non-zero double `bits` is printed by
+    `%.<p>G` as a text that converts back to `bits`, **whenever the double's significand is at least `10^p`**
+    (`mantOf bits`: the 53-bit significand of a normal double, the fraction field of a subnormal one).  The condition is what
+    the spacing argument needs — the last place `2^e` of the double is below the decimal unit `10^(x−p+1)` iff `m ≥ 10^p` — and
+    it is the only one: `digits_survive` (`P21/FloatDigits.lean`) is `fifteen_digits_survive` with 15 replaced by `p` and
+    "normal" by this bound. -/
+theorem C09_digits_survive (p : Nat) (hp : 1 ≤ p) (neg : Bool) (M : Nat) (E : Int) (hM : 0 < M) (hMp : M < 10 ^ p) (bits : Nat)
+    (hlt : bits < 2 ^ 64) (h : dblOps.ofDecimal ⟨neg, M, E⟩ = some bits)
+    (hfin : (bits / Dbl.pow2 52 % 2048 == 2047) = false)
+    (hnz : (bits / Dbl.pow2 52 % 2048 == 0 && bits % Dbl.pow2 52 == 0) = false)
+    (hmp : 10 ^ p ≤ mantOf bits) : Dbl.readsBack (Dbl.fmtG p bits) bits = true :=
+  dbl_fmtG_readsBack p hp bits hlt hfin (fun _ => digits_survive p hp neg M E hM hMp bits hlt h hfin hnz hmp)
+
+/-- … and it is the **digits** that survive, not only the double: under the same hypotheses the text `%.<p>G` prints parses
+    (`strtod`'s lexical stage) to a decimal with the sign of the original and **the same value** `M · 10^E` — the original digits
+    up to trailing zeros and the layout `%G` chooses — which converts to `bits` again.  (Without the bound on the significand the
+    double still comes back, but through other digits: `C09_digits_lost_witness`.) -/
+theorem C09_digits_survive_as_text (p : Nat) (hp : 1 ≤ p) (neg : Bool) (M : Nat) (E : Int) (hM : 0 < M) (hMp : M < 10 ^ p)
+    (bits : Nat) (hlt : bits < 2 ^ 64) (h : dblOps.ofDecimal ⟨neg, M, E⟩ = some bits)
+    (hfin : (bits / Dbl.pow2 52 % 2048 == 2047) = false)
+    (hnz : (bits / Dbl.pow2 52 % 2048 == 0 && bits % Dbl.pow2 52 == 0) = false)
+    (hmp : 10 ^ p ≤ mantOf bits) :
+    ∃ dec : Decimal, parseFloatText (Dbl.fmtG p bits) = some dec ∧ dec.neg = neg ∧
+      (dec.mant : Rat) * zp 10 dec.exp = (M : Rat) * zp 10 E ∧ dblOps.ofDecimal dec = some bits := by
+  obtain ⟨M', k, hpar, hq⟩ := dbl_fmtG_parse p hp bits hfin hnz
+  obtain ⟨hval, hback⟩ := digits_survive_value p hp neg M E hM hMp bits hlt h hfin hnz hmp M' k hq
+  obtain ⟨hsg, _, _⟩ := nearest_ident neg M E hM bits h hnz
+  exact ⟨_, hpar, hsg, hval, hback⟩
+
+/-- the bound on the significand is what keeps the digits (kernel evaluation, subnormals): `3E-324` is converted to the smallest
+    subnormal (significand 1 < 10), which `%.1G` prints as `5E-324`; `1.23456789012345E-321` is converted to the subnormal with
+    significand 250 < 10^15, which `%.15G` prints as `1.23516411460312E-321` — both texts convert back to the same double -/
+theorem C09_digits_lost_witness :
+    Dbl.ofDecimal ⟨false, 3, -324⟩ = some 1 ∧ Dbl.fmtG 1 1 = [53, 69, 45, 51, 50, 52] ∧ Dbl.readsBack (Dbl.fmtG 1 1) 1 = true ∧
+    Dbl.ofDecimal ⟨false, 123456789012345, -335⟩ = some 250 ∧
+    Dbl.fmtG 15 250 = [49, 46, 50, 51, 53, 49, 54, 52, 49, 49, 52, 54, 48, 51, 49, 50, 69, 45, 51, 50, 49] ∧
+    Dbl.readsBack (Dbl.fmtG 15 250) 250 = true := by
+  decide +kernel
+
+/-- normal doubles: every `p ≤ 15` (`10^15 < 2^52 ≤ m`) — DBL_DIG and everything below it -/
+theorem C09_digits_survive_normal (p : Nat) (hp : 1 ≤ p) (hp15 : p ≤ 15) (neg : Bool) (M : Nat) (E : Int) (hM : 0 < M)
+    (hMp : M < 10 ^ p) (bits : Nat) (hlt : bits < 2 ^ 64) (h : dblOps.ofDecimal ⟨neg, M, E⟩ = some bits)
+    (hnorm : 1 ≤ bits / Dbl.pow2 52 % 2048) (hfin : (bits / Dbl.pow2 52 % 2048 == 2047) = false) :
+    Dbl.readsBack (Dbl.fmtG p bits) bits = true := by
+  have hbe : ¬ (bits / Dbl.pow2 52 % 2048 == 0) = true := by simp; omega
+  have hnz : (bits / Dbl.pow2 52 % 2048 == 0 && bits % Dbl.pow2 52 == 0) = false := by
+    have : ¬ bits / Dbl.pow2 52 % 2048 = 0 := by omega
+    simp [this]
+  apply C09_digits_survive p hp neg M E hM hMp bits hlt h hfin hnz
+  have h1 : 10 ^ p ≤ 10 ^ 15 := Nat.pow_le_pow_right (by decide) hp15
+  have h2 : (10 : Nat) ^ 15 ≤ 2 ^ 52 := by decide
+  unfold mantOf
+  rw [if_neg hbe]
+  unfold Dbl.pow2
+  omega
+
+/-- subnormal doubles, binade by binade: a subnormal whose fraction field has `b` significant bits (`2^(b−1) ≤ fr`) keeps every
+    `p` with `10^p ≤ 2^(b−1)` digits — `b = 51, 52` keep 15, `b = 48..50` keep 14, …, `b = 5..7` keep 1 (`10 ≤ 2^(b−1)`), and
+    below 5 bits nothing is promised (`C09_digits_survive_table_witness`) -/
+theorem C09_digits_survive_subnormal (p b : Nat) (hp : 1 ≤ p) (h10 : 10 ^ p ≤ 2 ^ (b - 1)) (neg : Bool) (M : Nat) (E : Int)
+    (hM : 0 < M) (hMp : M < 10 ^ p) (bits : Nat) (hlt : bits < 2 ^ 64) (h : dblOps.ofDecimal ⟨neg, M, E⟩ = some bits)
+    (hsub : bits / Dbl.pow2 52 % 2048 = 0) (hb : 2 ^ (b - 1) ≤ bits % Dbl.pow2 52) :
+    Dbl.readsBack (Dbl.fmtG p bits) bits = true := by
+  have hbe : (bits / Dbl.pow2 52 % 2048 == 0) = true := by simp [hsub]
+  have hfin : (bits / Dbl.pow2 52 % 2048 == 2047) = false := by simp [hsub]
+  have hpos : 0 < bits % Dbl.pow2 52 := Nat.lt_of_lt_of_le (Nat.pow_pos (by decide)) hb
+  have hnz : (bits / Dbl.pow2 52 % 2048 == 0 && bits % Dbl.pow2 52 == 0) = false := by
+    have : ¬ bits % Dbl.pow2 52 = 0 := by omega
+    simp [this]
+  apply C09_digits_survive p hp neg M E hM hMp bits hlt h hfin hnz
+  unfold mantOf
+  rw [if_pos hbe]
+  exact Nat.le_trans h10 hb
+
+/-- the table of the previous theorem at its edges (kernel evaluation): which `p` a subnormal with `b` significant bits keeps -/
+theorem C09_digits_survive_table_witness :
+    (10 ^ 15 ≤ 2 ^ (51 - 1) ∧ ¬ 10 ^ 15 ≤ 2 ^ (50 - 1)) ∧ (10 ^ 14 ≤ 2 ^ (48 - 1) ∧ ¬ 10 ^ 14 ≤ 2 ^ (47 - 1)) ∧
+    (10 ^ 1 ≤ 2 ^ (5 - 1) ∧ ¬ 10 ^ 1 ≤ 2 ^ (4 - 1)) ∧ ((10 : Nat) ^ 15 < 2 ^ 52 ∧ ¬ (10 : Nat) ^ 16 ≤ 2 ^ 52) := by
+  decide
 
 /-- ±0 needs no hypothesis at all: `0.` / `-0.` reads back to the same bit pattern (the sign of zero is kept) -/
 theorem C09_writer_real_zero_round_trips (p : Nat) (hp : 1 ≤ p) :
@@ -3331,6 +3413,23 @@ theorem C09_aggr_stray_slash_witness :
       | .ok (sev, some [.atom (.real v), .atom (.real w)], _) => sev == .null && v == 0x3FE0000000000000 && w == 0xC044000000000000
       | _ => false) = true := by
   decide
+
+/-- **what the aggregate path of the reader model does not cover yet: in-band-null elements** (still open, coordinated with C01).
+    At attribute level the model follows the repaired source (fixes/C09-9): `9223372036854775807` is reported (WARNING, unset).
+    On the element path `scalarNodeRead` still calls `readInteger` / `readReal` without the sentinel wrappers, so the *model*
+    stores `(9223372036854775807)` and `(1.1754943508222875E-38)` as an unset element with severity NULL — the *code* reports
+    both (WARNING; oracle-only lines of the `aggregates` batch).  The `C09_aggr_*` theorems are therefore statements about
+    aggregates whose elements are not the in-band null; this witness pins the gap so that it shows when the model is switched -/
+theorem C09_aggr_sentinel_element_witness :
+    aggrSilent (aggrRead sampleEnv .integer (IStream.ofBytes [40, 57, 50, 50, 51, 51, 55, 50, 48, 51, 54, 56, 53, 52, 55, 55, 53, 56, 48, 55, 41, 44])) [.atom .unset] = true ∧
+    aggrSilent (aggrRead sampleEnv .real (IStream.ofBytes [40, 49, 46, 49, 55, 53, 52, 57, 52, 51, 53, 48, 56, 50, 50, 50, 56, 55, 53, 69, 45, 51, 56, 41, 44])) [.atom .unset] = true ∧
+    (match attrRead dblOps Generated.lexCfg (fun _ => .missing) .integer false (IStream.ofBytes [57, 50, 50, 51, 51, 55, 50, 48, 51, 54, 56, 53, 52, 55, 55, 53, 56, 48, 55, 44]) with
+      | .ok r => r.sev == .warning && (match r.val with | .unset => true | _ => false)
+      | _ => false) = true ∧
+    (match attrRead dblOps Generated.lexCfg (fun _ => .missing) .real false (IStream.ofBytes [49, 46, 49, 55, 53, 52, 57, 52, 51, 53, 48, 56, 50, 50, 50, 56, 55, 53, 69, 45, 51, 56, 44]) with
+      | .ok r => r.sev == .warning && (match r.val with | .unset => true | _ => false)
+      | _ => false) = true := by
+  decide +kernel
 
 end Aggregates
 
